@@ -69,6 +69,17 @@ type typesOutcome struct {
 	// BigShift: a shift with a constant count ≥ 512: Scriggo's 512-bit constant limit differs
 	// from go/types' count limit 1074 (C02's known finding, DESIGN §8 row 28).
 	BigShift bool
+	// UntypedCount: a shift whose count is a non-constant untyped expression (it contains a shift
+	// of an untyped constant by a non-constant count, `x << (1<<s + c)`): go/types converts the
+	// count to uint "incorrectly, preserving pre-existing behaviour" (its own comment,
+	// go.dev/issue/47410): floating-point constants in it are checked, integer ones are not
+	// (`x >> ((1 >> s) + (-3))` is accepted). Scriggo converts every constant of the count to
+	// uint, as the specification says. Not judged.
+	UntypedCount bool
+	// HugeFloat: a floating-point literal with a decimal exponent beyond ±300: arithmetic
+	// with it needs more than the 512 bits of mantissa Scriggo keeps (the specification allows
+	// rounding; go/constant stays exact longer), e.g. `var x int = 30/1e400 + 34`. Not judged.
+	HugeFloat bool
 	// RefBug: the constant division MinInt64 / -1, which go/constant's int64 fast path wraps to
 	// MinInt64 (the exact quotient 2^63 does not fit int/int64): the reference is wrong, the
 	// case is not judged.
@@ -86,6 +97,10 @@ func (o typesOutcome) known() string {
 		return "constant-shift-count-512"
 	case o.RefBug:
 		return "go/constant-MinInt64-div-minus-one"
+	case o.UntypedCount:
+		return "untyped-non-constant-shift-count"
+	case o.HugeFloat:
+		return "float-literal-beyond-512-bit-precision"
 	}
 	return ""
 }
@@ -165,6 +180,26 @@ func checkTypes(src string) typesOutcome {
 		k := ty.Value.Kind()
 		return (k == constant.Int || k == constant.Float || k == constant.Complex) && constant.Compare(ty.Value, token.EQL, constant.MakeInt64(0))
 	}
+	untypedCount, hugeFloat := false, false
+	// delayed reports whether e contains a shift of a constant by a non-constant count
+	delayed := func(e goast.Expr) bool {
+		found := false
+		goast.Inspect(e, func(n goast.Node) bool {
+			if b, ok := n.(*goast.BinaryExpr); ok && (b.Op == token.SHL || b.Op == token.SHR) {
+				tx, ok1 := info.Types[b.X]
+				ty, ok2 := info.Types[b.Y]
+				if ok1 && ok2 && tx.Value != nil && ty.Value == nil {
+					found = true
+				}
+			}
+			return true
+		})
+		return found
+	}
+	isUntypedCount := func(y goast.Expr) bool {
+		tv, ok := info.Types[y]
+		return (!ok || tv.Value == nil) && delayed(y)
+	}
 	refBug := false
 	minIntDiv := func(x, y goast.Expr) bool {
 		tx, ok1 := info.Types[x]
@@ -181,15 +216,21 @@ func checkTypes(src string) typesOutcome {
 				refBug = true
 			}
 			if n.Op == token.SHL || n.Op == token.SHR {
+				untypedCount = untypedCount || isUntypedCount(n.Y)
 				quirk = quirk || isQuirk(n.Y)
 				big = big || bigCount(n.Y)
 			}
 			if n.Op == token.QUO {
 				fdz = fdz || floatDivZero(n.X, n.Y)
 			}
+		case *goast.BasicLit:
+			if n.Kind == token.FLOAT && len(n.Value) > 300 {
+				hugeFloat = true
+			}
 		case *goast.AssignStmt:
 			if len(n.Lhs) == 1 && len(n.Rhs) == 1 {
 				if n.Tok == token.SHL_ASSIGN || n.Tok == token.SHR_ASSIGN {
+					untypedCount = untypedCount || isUntypedCount(n.Rhs[0])
 					quirk = quirk || isQuirk(n.Rhs[0])
 					big = big || bigCount(n.Rhs[0])
 				}
@@ -200,7 +241,8 @@ func checkTypes(src string) typesOutcome {
 		}
 		return true
 	})
-	out := typesOutcome{OK: first == nil, Quirk: quirk, FloatDivZero: fdz, BigShift: big, RefBug: refBug}
+	out := typesOutcome{OK: first == nil, Quirk: quirk, FloatDivZero: fdz, BigShift: big, RefBug: refBug,
+		UntypedCount: untypedCount, HugeFloat: hugeFloat}
 	if first != nil {
 		out.Msg = first.Error()
 		return out
